@@ -22,6 +22,7 @@ RULE = (
     "and last in every step. Part 'invalid': a valid schedule is mutated (duplicate, swap, decreasing tail, first time 0, "
     "start >= first, empty, both times and file) and fed through 7 entry points; an error must surface before any model "
     "runs. Non-trivial: n>=2 and (non-destructive or non-fresh history), or any invalid case; distinct by canonical JSON."
+    " Part 'readout_sweep': the schedule comes from a dask observation sweeping observation.readout.times with a generated start time; every run must observe its own time, time - start, start + time, counter 0 and both flags."
 )
 ASSUMPTIONS = [
     "schedules containing NaN, or a zero at a position other than the first, are neither required to be accepted nor rejected and are never generated",
@@ -276,7 +277,51 @@ def body_invalid(case, rec):
         rec.fail("model_ran_on_invalid_schedule", f"{kind} via {entry}: {len(P.SNAPS)} probe calls happened; error was {exc!r}")
 
 
-PARTS = {"valid": body_valid, "invalid": body_invalid}
+# ------------------------------------------------------------------ the schedule comes from a sweep of the readout time (dask observation)
+@st.composite
+def sweep_cases(draw):
+    """An observation sweeping 'observation.readout.times' (dask path): every run is one readout at its own time, from the configured start time."""
+    start = draw(st.sampled_from([0.0, 0.0, 0.125, 0.5, -1.0, -2.5]))
+    ts = draw(st.lists(st.sampled_from([0.75, 1.0, 2.0, 3.5, 6.0, 10.0]), min_size=1, max_size=4, unique=True))
+    return {"start": start, "times": ts, "user_times": draw(st.sampled_from([[3.0, 4.0], [1.0], [0.75, 8.0, 9.0]])), "non_destructive": draw(st.booleans()),
+            "shape": [draw(st.integers(1, 3)), draw(st.integers(1, 3))]}
+
+
+def body_sweep(case, rec):
+    from vprobes import models as P
+
+    P.reset()
+    start, ts = case["start"], case["times"]
+    rec.cls("sweep:start_nonzero" if start else "sweep:start_0", f"sweep:runs:{len(ts)}")
+    rec.nt(len(ts) >= 2 and start != 0)
+    spec = {"detector": simple_spec("CCD", row=case["shape"][0], col=case["shape"][1]), "pipeline": _pipeline({"pixel_add": {"dtype": "float64", "values": [1]}}),
+            "readout": {"times": list(case["user_times"]), "start_time": start}, "non_destructive": case["non_destructive"],
+            "mode": {"kind": "observation", "mode": "product", "with_dask": True,
+                     "parameters": [{"key": "observation.readout.times", "values": list(ts), "enabled": True}]}}
+    ok = False
+    with rec.must_not_raise("valid_schedule_refused"):
+        pyx.run(pyx.build(spec), with_inherited_coords=True)
+        ok = True
+    if not ok:
+        return
+    firsts = [x for x in P.SNAPS if x["where"] == "first"]
+    for t in ts:
+        mine = [x for x in firsts if x["time"] == t]
+        # (the dask path executes one element of the space once more to learn the result's layout)
+        if not rec.check(1 <= len(mine) <= 2, "wrong_number_of_steps", f"readout time {t}: {len(mine)} steps observed it (times seen: {sorted({x['time'] for x in firsts})})"):
+            continue
+        for sn in mine:
+            w = f"run read out at {t} from start {start}"
+            rec.check(_close(sn["time_step"], t - start), "clock_time_step", f"{w}: step {sn['time_step']!r} expected {t - start!r}")
+            rec.check(_close(sn["absolute_time"], start + t), "clock_absolute_time", f"{w}: abs {sn['absolute_time']!r} expected {start + t!r}")
+            rec.check(_close(sn["start_time"], start), "clock_start_time", f"{w}: start_time {sn['start_time']!r}")
+            rec.check(sn["pipeline_count"] == 0 and sn["is_first"] and sn["is_last"], "clock_counter", f"{w}: counter {sn['pipeline_count']} first {sn['is_first']} last {sn['is_last']}")
+            rec.check(sn["non_destructive"] == case["non_destructive"], "clock_mode_flag", f"{w}: non_destructive {sn['non_destructive']}")
+    other = sorted({x["time"] for x in firsts} - set(ts))
+    rec.check(not other, "wrong_number_of_steps", f"steps at times never requested: {other}")
+
+
+PARTS = {"valid": body_valid, "invalid": body_invalid, "readout_sweep": body_sweep}
 
 
 def plan(tier):
@@ -284,4 +329,5 @@ def plan(tier):
     return [
         Part(name="valid", kind="gen", strategy=valid_cases, examples=nv),
         Part(name="invalid", kind="gen", strategy=invalid_cases, examples=ni),
+        Part(name="readout_sweep", kind="gen", strategy=sweep_cases, examples=20 if tier == "quick" else 150),
     ]
